@@ -332,7 +332,9 @@ func (c *Check) asPathSegments(ruleV, ruleL string) {
 	if fn == nil || len(fn.Params) != 3 {
 		return
 	}
-	isVal := func(e *Expr) bool { return e.Op == "nn" && e.Args[0].Op == "rcall" && e.Args[0].S == "PathAttrFlags.Validate" }
+	isVal := func(e *Expr) bool {
+		return e.Op == "nn" && e.Args[0].Op == "rcall" && e.Args[0].S == "PathAttrFlags.Validate"
+	}
 	segType := func(e *Expr) bool {
 		if e.Op != "ld" || e.Args[0].Op != "ia" || e.Args[0].Args[0].Op != "phi" {
 			return false
